@@ -93,32 +93,35 @@ DeliveryFails(t, s) ==
           ELSE IF oi /\ ~ni THEN "stop-matching-is-REMOVE"
           ELSE "matching-update-is-UPDATE")
 
+At(sid, F) == { [sid |-> sid, f |-> f] : f \in F }     \* sid 0: the call itself
+
 StreamFails(t, s) ==
-  { "C08:" \o f : f \in ListFails(s.la, t.after, ReqOf(s), s.rm)
-                       \cup DeliveryFails(t, s)
-                       \cup If(ViewAfter(s) = AsMap(s.la), "fold-equals-list")
-                       \cup If(~s.ended, "stream-ended")
-                       \cup If(~s.lost, "change-not-delivered") }
+  At(s.sid, { "C08:" \o f : f \in ListFails(s.la, t.after, ReqOf(s), s.rm)
+                                  \cup DeliveryFails(t, s)
+                                  \cup If(ViewAfter(s) = AsMap(s.la), "fold-equals-list")
+                                  \cup If(~s.ended, "stream-ended")
+                                  \cup If(~s.lost, "change-not-delivered") })
 
 \* the harness reports the fold before the step: it must be the fold after the previous step of the same program
 ChainFails(k) ==
   LET t == Obs[k] IN
   UNION { LET s == t.streams[j] IN
-          IF s.opened THEN If(s.vb = <<>>, "HARNESS:view-chain")
-          ELSE IF k = 1 \/ Obs[k - 1].case # t.case THEN {"HARNESS:view-chain"}
-          ELSE LET prev == { p \in Range(Obs[k - 1].streams) : p.sid = s.sid } IN
-               If(Cardinality(prev) = 1 /\ \A p \in prev : ViewAfter(p) = AsMap(s.vb) /\ SortedById(s.vb), "HARNESS:view-chain")
+          At(s.sid,
+             IF s.opened THEN If(s.vb = <<>>, "HARNESS:view-chain")
+             ELSE IF k = 1 \/ Obs[k - 1].case # t.case THEN {"HARNESS:view-chain"}
+             ELSE LET prev == { p \in Range(Obs[k - 1].streams) : p.sid = s.sid } IN
+                  If(Cardinality(prev) = 1 /\ \A p \in prev : ViewAfter(p) = AsMap(s.vb) /\ SortedById(s.vb), "HARNESS:view-chain"))
         : j \in 1..Len(t.streams) }
 
 Fails(k) ==
   LET t == Obs[k] IN
-  If(t.panic = "", "C08:panic")
-  \cup If(~t.timeout \/ \E j \in 1..Len(t.streams) : t.streams[j].lost, "HARNESS:timeout")
-  \cup If(SortedById(t.before) /\ SortedById(t.after), "HARNESS:contents")
-  \cup (IF t.call.op = "list"
-        THEN { "C08:" \o f : f \in If(t.ret = "OK", "list-error")
-                                   \cup ListFails(t.list, t.after, [has |-> t.call.rh, s |-> t.call.rs, e |-> t.call.re], t.call.rm) }
-        ELSE {})
+  At(0, If(t.panic = "", "C08:panic")
+        \cup If(~t.timeout \/ \E j \in 1..Len(t.streams) : t.streams[j].lost, "HARNESS:timeout")
+        \cup If(SortedById(t.before) /\ SortedById(t.after), "HARNESS:contents")
+        \cup (IF t.call.op = "list"
+              THEN { "C08:" \o f : f \in If(t.ret = "OK", "list-error")
+                                         \cup ListFails(t.list, t.after, [has |-> t.call.rh, s |-> t.call.rs, e |-> t.call.re], t.call.rm) }
+              ELSE {}))
   \cup UNION { StreamFails(t, t.streams[j]) : j \in 1..Len(t.streams) }
   \cup ChainFails(k)
 
